@@ -37,6 +37,19 @@ pub fn run(ctx: &mut Ctx) {
             run_sdd_history(ctx, &cfg, &ops, &c2);
         });
     }
+    // the same with the vtree's variables spread over up to 200 labels (label set with gaps,
+    // 64/128 boundaries included)
+    for case in ctx.cases("wide", 300, true) {
+        let c2 = checks.clone();
+        ctx.run_case("wide", case, move |ctx, rng| {
+            let mut cfg = random_sdd_cfg(rng, 6, true);
+            cfg.nops = rng.range(5, 70);
+            let ops = gen_sdd_history(cfg.n, cfg.nops, rng);
+            let _g = crate::gen::LabelMapGuard::new(crate::gen::random_label_map(cfg.n, rng));
+            ctx.count("histories_over_spread_labels", 1);
+            run_sdd_history(ctx, &cfg, &ops, &c2);
+        });
+    }
     for case in ctx.cases("rand", 1500, true) {
         let c2 = checks.clone();
         ctx.run_case("rand", case, move |ctx, rng| {
